@@ -117,8 +117,13 @@ def copy_mismatches(repo: Repo, prefixes: Iterable[str]):
                 if len(same) < need:
                     continue
                 n += 1
+                srcs = {y for _x, y in ps}
                 for x, y in ps:
-                    if x != y and (f.qualname, x, y) not in COPY_OK:
+                    # copy-paste signature: `y` is also copied to its
+                    # namesake, and the mismatched target's own namesake is
+                    # never taken from the source object
+                    if x != y and (y, y) in ps and x not in srcs and (
+                            f.qualname, x, y) not in COPY_OK:
                         hits.append((f, x, y))
     return n, hits
 
@@ -209,8 +214,20 @@ def loop_slips(repo: Repo, prefixes: Iterable[str]):
                 if l.orelse and not any(
                         isinstance(x, (ast.Break, ast.Return))
                         for b in l.body for x in ast.walk(b)):
-                    hits.append((f, l, 'else arm of a loop that never '
-                                       'breaks: it always runs'))
+                    # signature of a dedent slip: the else arm (which always
+                    # runs, once) rebinds a name the loop body reads
+                    reb = {t.id for b in l.orelse for a in ast.walk(b)
+                           if isinstance(a, ast.Assign) for t in a.targets
+                           if isinstance(t, ast.Name)}
+                    used = {x.id for b in l.body for x in ast.walk(b)
+                            if isinstance(x, ast.Name)
+                            and isinstance(x.ctx, ast.Load)}
+                    if reb & used:
+                        hits.append((f, l, f'the else arm of a loop that '
+                                     f'never breaks rebinds '
+                                     f'{sorted(reb & used)}, which the loop '
+                                     f'body reads: the update was meant to '
+                                     f'happen in every iteration'))
                 if isinstance(l, ast.For) and isinstance(
                         l.iter, (ast.Name, ast.Attribute)) \
                         and f.qualname not in RESIZE_OK:
@@ -272,12 +289,8 @@ def battery(repo: Repo, ctx, rule: str, prefixes: Iterable[str],
                      f'value, which is dropped' for f, s_ in hits[:3]) +
            f' -- {consequence}', hits[0][0].loc if hits else '',
            sample=f'{n} call statements', nontrivial=bool(n))
-    n, hits = unused_locals(repo, prefixes)
-    ctx.ob(rule, 'slips:value-never-used', not hits,
-           '; '.join(f'{f.qualname}: `{v}` is assigned (line {ln}) and '
-                     f'never read' for f, v, ln in hits[:3]) +
-           f' -- {consequence}', hits[0][0].loc if hits else '',
-           sample=f'{n} functions', nontrivial=bool(n))
+    # (unused_locals() is deliberately not armed: leaving a value unused is
+    # behaviour-preserving, so it cannot be a violation signal)
     n, hits = loop_slips(repo, prefixes)
     ctx.ob(rule, 'slips:loops', not hits,
            '; '.join(f'{f.qualname}:{l.lineno - f.node.lineno}: {why}'
